@@ -20,7 +20,7 @@ import time
 
 from vf.core import Check, REPO, HarnessError
 
-MODULES = ["Model.Lineage", "Proofs.Lineage", "Generated.C17", "Properties.C17"]
+MODULES = ["Model.Ident", "Model.Lineage", "Proofs.Lineage", "Generated.C17", "Properties.C17"]
 THEOREMS = [
     "SqlglotModel.Properties.C17.generated_key_ok",
     "SqlglotModel.Properties.C17.leaves_eq_flow",
@@ -34,6 +34,9 @@ THEOREMS = [
     "SqlglotModel.Properties.C17.alias_renaming_invariant",
     "SqlglotModel.Properties.C17.expand_then_lineage_eq_inline",
     "SqlglotModel.Properties.C17.expand_example",
+    "SqlglotModel.Properties.C17.generated_key_normalised_once",
+    "SqlglotModel.Properties.C17.expand_key_normalised_once",
+    "SqlglotModel.Properties.C17.expand_key_double_normalisation_witness",
     "SqlglotModel.Properties.C17.twoCol_ok",
     "SqlglotModel.Properties.C17.stale_key_without_column_witness",
     "SqlglotModel.Properties.C17.twoSubq_ok",
@@ -50,6 +53,7 @@ KEY_NAMES = {
 }
 
 
+KEY_PASSES = [1]
 WRAP_FORM = ["subquery_scopes"]  # set by translate(): how the Subquery-wrapper branch picks its inner scope
 
 
@@ -112,6 +116,38 @@ def translate(chk: Check) -> str:
     chk.cov["cache_key_components"] = comps
     chk.cov["recursive_calls"] = ncalls
     chk.cov["subquery_branch_iterates"] = WRAP_FORM[0]
+    # how often the `sources=` keys / a table reference go through normalize_table_name on the way into exp.expand
+    n_lin = None
+    for fn in [n for n in tree.body if isinstance(n, ast.FunctionDef) and n.name == "lineage"]:
+        calls = [n for n in ast.walk(fn) if isinstance(n, ast.Call)]
+        has_expand = any(ast.unparse(c.func) in ("exp.expand", "expand") for c in calls)
+        if has_expand:
+            n_lin = sum(1 for c in calls if ast.unparse(c.func).split(".")[-1] == "normalize_table_name")
+    n_exp = n_ref = None
+    try:
+        btree = ast.parse(open(os.path.join(REPO, "sqlglot", "expressions", "builders.py"), encoding="utf-8").read())
+        for fn in [n for n in btree.body if isinstance(n, ast.FunctionDef) and n.name == "expand"]:
+            comps_ = [n for n in ast.walk(fn) if isinstance(n, ast.Assign) and ast.unparse(n.targets[0]) == "normalized_sources"
+                      and isinstance(n.value, ast.DictComp)]
+            if len(comps_) == 1 and ast.unparse(comps_[0].value.generators[0].iter) == "sources.items()":
+                k = comps_[0].value.key
+                if isinstance(k, ast.Name):
+                    n_exp = 0
+                elif isinstance(k, ast.Call) and ast.unparse(k.func) == "normalize_table_name" and isinstance(k.args[0], ast.Name):
+                    n_exp = 1
+            names = [n for n in ast.walk(fn) if isinstance(n, ast.Assign) and ast.unparse(n.targets[0]) == "name"]
+            gets = [n for n in ast.walk(fn) if isinstance(n, ast.Call) and ast.unparse(n.func) == "normalized_sources.get"]
+            if len(names) == 1 and len(gets) == 1 and ast.unparse(gets[0].args[0]) == "name":
+                v = names[0].value
+                if isinstance(v, ast.Call) and ast.unparse(v.func) == "normalize_table_name" and ast.unparse(v.args[0]) == "node":
+                    n_ref = 1
+    except (OSError, SyntaxError):
+        pass
+    if n_lin is None or n_exp is None or n_ref is None:
+        chk.broken.append({"kind": "translator", "what": f"C17 translator: structure changed: sources key normalisation (lineage={n_lin}, expand keys={n_exp}, reference={n_ref})"})
+        n_lin, n_exp, n_ref = n_lin or 0, 1 if n_exp is None else n_exp, 1 if n_ref is None else n_ref
+    chk.cov["source_key_normalisations"] = {"lineage": n_lin, "expand": n_exp, "reference": n_ref}
+    KEY_PASSES[0] = n_lin + n_exp
     return (
         "-- GENERATED by vf/props/c17.py from sqlglot/lineage.py (to_node: cache_key tuple, recursive calls). Do not edit.\n"
         "import SqlglotModel.Model.Lineage\n"
@@ -122,13 +158,17 @@ def translate(chk: Check) -> str:
         f"def recursiveCallsPassCache : Bool := {'true' if all_pass and ncalls else 'false'}\n"
         f"/-- informational: what the Subquery-wrapper branch iterates to find the inner scope -/\n"
         f"def subqueryBranchIterates : String := \"{WRAP_FORM[0]}\"\n"
+        f"/-- normalize_table_name passes over a `sources=` key between lineage() and the lookup in exp.expand -/\n"
+        f"def keyNormalisations : Nat := {KEY_PASSES[0]}\n"
+        f"/-- normalize_table_name passes over a table reference before the lookup -/\n"
+        f"def refNormalisations : Nat := {n_ref}\n"
         "end SqlglotModel.Generated.C17\n"
     )
 
 
 # ------------------------------------------------------------------------------------------ query IR
 BASE = {"t": ["a", "b", "c"], "u": ["a", "d"], "v": ["b", "e", "f", "g"]}
-DIALECTS = [None, "duckdb", "snowflake", "bigquery", "postgres", "mysql", "spark", "hive", "tsql", "mysql", "bigquery"]
+DIALECTS = [None, "duckdb", "snowflake", "bigquery", "postgres", "mysql", "spark", "hive", "tsql", "mysql", "bigquery", "singlestore"]
 ALIASES = ["d", "e", "p", "q", "r", "s", "w"]
 OUTNAMES = ["x", "y", "z", "a", "b", "k", "m"]
 
@@ -368,7 +408,8 @@ def gen_query(rng, depth, ncols=None, allow_union=True):
 
 # ------------------------------------------------------------------------------------------ rendering
 class Ctx:
-    def __init__(self, pres, path, ren, dialect=None, style=0):
+    def __init__(self, pres, path, ren, dialect=None, style=0, nameforms=()):
+        self.nameforms = tuple(nameforms)  # how the n-th source / CTE is NAMED (see source_name_text)
         self.dialect = dialect
         self.style = style  # bit 1: dialect-quoted identifiers, bit 2: string-literal operands, bit 4: double-quoted literals
         self.pres = pres  # inline | cte | src
@@ -383,7 +424,9 @@ class Ctx:
         key = (id(s.q), defcl)
         if key not in self.named:
             body = render(s.q, self)
-            name = ("c%d" if self.pres == "cte" else "s%d") % (len(self.named) + 1)
+            n = len(self.named) + 1
+            form = self.nameforms[(n - 1) % len(self.nameforms)] if self.nameforms else 0
+            name = source_name_text(form, n, self.dialect, self.pres == "cte")
             self.named[key] = name
             if self.pres == "cte":
                 head = name + ("(" + ", ".join(defcl) + ")" if defcl else "")
@@ -391,6 +434,39 @@ class Ctx:
             else:
                 self.sources[name] = body
         return self.named[key]
+
+
+NAME_KW = ["select", "order", "group", "table"]
+NAME_FORMS = {0: "plain", 1: "quoted-mixed", 2: "quoted-lower", 3: "quoted-upper", 4: "quoted-space", 5: "quoted-keyword",
+              6: "unquoted-mixed", 7: "db-qualified", 8: "quoted-qualified"}
+
+
+def source_name_text(form, n, dialect, cte):
+    """the SQL text naming the n-th source: used verbatim as the `sources=` dict key and as the table reference
+    (what a user would pass: sources={'"Orders1"': 'SELECT …'}); as CTE name in the CTE presentation (qualifier dropped).
+    Names stay distinct under every normalisation strategy (the index is part of the name)."""
+    _, exp, *_ = sg()
+
+    def qid(name):
+        return exp.to_identifier(name, quoted=True).sql(dialect=dialect)
+
+    if form == 1:
+        return qid(f"Orders{n}")
+    if form == 2:
+        return qid(f"orders{n}")
+    if form == 3:
+        return qid(f"ORDERS{n}")
+    if form == 4 or (form == 5 and n > len(NAME_KW)):
+        return qid(f"my src{n}")
+    if form == 5:
+        return qid(NAME_KW[n - 1])
+    if form == 6:
+        return f"Orders{n}"
+    if form == 7:
+        return f"src{n}" if cte else f"db.src{n}"
+    if form == 8:
+        return qid(f"Src{n}") if cte else qid("Db") + "." + qid(f"Src{n}")
+    return ("c%d" if cte else "s%d") % n
 
 
 def render_source(alias, s, ctx):
@@ -483,8 +559,8 @@ def dialect_traits(dialect):
     return _TRAITS[dialect]
 
 
-def present(q, pres, path="", ren=lambda a: a, dialect=None, style=0):
-    ctx = Ctx(pres, path, ren, dialect, style)
+def present(q, pres, path="", ren=lambda a: a, dialect=None, style=0, nameforms=()):
+    ctx = Ctx(pres, path, ren, dialect, style, nameforms)
     body = render(q, ctx)
     if style & 8:
         body = "(" + body + ")"  # parenthesised root query
@@ -587,47 +663,87 @@ def add_table(schema, path, name, cols):
     return sch
 
 
+def ident_parts(tbl):
+    return [[p.name, bool(p.args.get("quoted"))] for p in tbl.parts]
+
+
+def base_normalizer(dialect):
+    """-> strategy name if the dialect's normalize_identifier is the base implementation the Ident model mirrors"""
+    from sqlglot.dialects.dialect import Dialect
+
+    d = Dialect.get_or_raise(dialect)
+    if type(d).normalize_identifier is Dialect.normalize_identifier:
+        return d.normalization_strategy.value
+    return None
+
+
+def unresolved(scopes):
+    """a column the stand-alone qualification of a piece could not attribute to a source (the augmented schema is
+    harness machinery: such a piece says nothing about expand)"""
+    for sc in scopes:
+        if sc["k"] == "select":
+            for p in sc["projs"] + [sc["fb"]]:
+                if any(t == "" for t, _ in p["cols"]):
+                    return True
+    return False
+
+
 def to_model_unexpanded(sql, sources, schema, path, dialect):
     """the `sources=` presentation WITHOUT running exp.expand: every source query and the main query are qualified on
     their own (the other sources visible as plain tables with their output columns) and flattened separately;
-    the Lean model does the expansion.  -> request dict with "defs", or None"""
-    from sqlglot.expressions import normalize_table_name
+    the Lean model does the expansion AND the key lookup: definition keys and table references travel as identifier
+    parts (name, quoted) plus the dialect's normalisation strategy.  -> request dict with "defs", or None"""
+    _, exp, *_ = sg()
+    from sqlglot.optimizer.normalize_identifiers import normalize_identifiers
 
+    strategy = base_normalizer(dialect)
+    if strategy is None:
+        # dialects with their own normalize_identifier (bigquery: a single-part table name in a query is folded,
+        # the same name as a schema key is not): the augmented schema of this harness cannot present a case-altering
+        # source name as a table, so only plain names take part here; the search oracle covers the rest
+        from sqlglot.expressions import normalize_table_name
+
+        if any(normalize_table_name(k, dialect=dialect) != k for k in sources):
+            return None
     sch = schema
-    defs, keys = [], {}
+    defs, refs = [], {}
     for name, body in sources.items():  # dependency order: inner sources were registered first
-        key = normalize_table_name(name, dialect=dialect)
+        tbl = exp.to_table(name, dialect=dialect)
+        if len(tbl.parts) != 1:
+            return None  # qualified keys: not placed into the augmented schema (covered by the search oracle)
+        if strategy is None:
+            tbl = normalize_identifiers(tbl, dialect=dialect)  # dialect-specific folding done by the real code
         e = qualified(body, None, sch, dialect)
-        m = scopes_of(e, keys, dialect)
-        if m is None:
+        m = scopes_of(e, refs)
+        if m is None or m[0]["root"] != len(m[0]["scopes"]) - 1 or unresolved(m[0]["scopes"]):
             return None
-        defs.append({"name": key, "scopes": m[0]["scopes"]})
-        if m[0]["root"] != len(m[0]["scopes"]) - 1:
-            return None
-        keys[key] = 1
+        defs.append({"key": ident_parts(tbl), "scopes": m[0]["scopes"]})
         sch = add_table(sch, path, name, e.named_selects)
     e = qualified(sql, None, sch, dialect)
-    m = scopes_of(e, keys, dialect)
-    if m is None or m[0]["root"] != len(m[0]["scopes"]) - 1:
+    m = scopes_of(e, refs)
+    if m is None or m[0]["root"] != len(m[0]["scopes"]) - 1 or unresolved(m[0]["scopes"]):
         return None
-    return {"defs": defs, "scopes": m[0]["scopes"], "cols": m[0]["cols"]}
+    if strategy is None:
+        refs = {k: ident_parts(normalize_identifiers(exp.to_table(".".join(exp.to_identifier(n, quoted=q).sql(dialect=dialect) for n, q in v), dialect=dialect), dialect=dialect)) for k, v in refs.items()}
+    return {"defs": defs, "refs": [[k, v] for k, v in refs.items()], "strategy": strategy or "CASE_SENSITIVE",
+            "scopes": m[0]["scopes"], "cols": m[0]["cols"]}
 
 
-def scopes_of(expression, src_keys=None, dialect=None):
+def scopes_of(expression, refs=None):
     """build_scope + flatten (children first) -> (request dict, root scope, idx map) or None"""
     sqlglot, exp, L, build_scope, qualify, Scope, ScopeType, find_all_in_scope = sg()
-    from sqlglot.expressions import normalize_table_name
 
     root = build_scope(expression)
     order = list(root.traverse())
     idx = {id(s): i for i, s in enumerate(order)}
 
     def table_name(tbl):
-        if src_keys:
-            k = normalize_table_name(tbl, dialect=dialect)
-            if k in src_keys:
-                return k
-        return table_id(tbl)
+        tid = table_id(tbl)
+        if refs is not None:
+            parts = ident_parts(tbl)
+            if refs.setdefault(tid, parts) != parts:
+                raise ValueError("two table references with one id and different quoting")
+        return tid
 
     def proj(scope, sel, name):
         cols, seen = [], set()
@@ -756,7 +872,8 @@ def canon_entries(entries):
 
 # ------------------------------------------------------------------------------------------ the oracle
 class Case:
-    def __init__(self, q, path, dialect, style=0):
+    def __init__(self, q, path, dialect, style=0, nameforms=()):
+        self.nameforms = tuple(nameforms)
         self.q = q
         self.path = path
         self.dialect = dialect
@@ -767,11 +884,13 @@ class Case:
         self.feats = features(q)
         if style & 8:
             self.feats.add("paren-root")
+        if any(self.nameforms) and "sub" in self.feats:
+            self.feats.add("named-sources")
 
     def presentations(self):
         out = {}
         for pres in ("inline", "cte", "src"):
-            out[pres] = present(self.q, pres, self.path, dialect=self.dialect, style=self.style)
+            out[pres] = present(self.q, pres, self.path, dialect=self.dialect, style=self.style, nameforms=self.nameforms)
         out["renamed"] = present(self.q, "inline", self.path, ren=lambda a: "r_" + a, dialect=self.dialect, style=self.style)
         return out
 
@@ -920,7 +1039,7 @@ def minimise(case, kind, pres, deadline):
             if time.time() > deadline:
                 break
             try:
-                c2 = Case(q2, case.path, case.dialect, case.style)
+                c2 = Case(q2, case.path, case.dialect, case.style, case.nameforms)
                 v2, _ = oracle(c2, only={pres})
             except Exception:  # noqa
                 continue
@@ -1066,7 +1185,11 @@ def gen_case(rng, max_depth):
     style = rng.choice([0, 0, 1, 2, 3, 6, 7, 7])
     if rng.random() < 0.07:
         style |= 8  # parenthesised root query: the Subquery-wrapper branch of to_node
-    return Case(q, path, dialect, style)
+    nameforms = ()
+    if rng.random() < 0.55:
+        # how sources= keys / CTE names are spelled: quoted, case-altering, needing quotes, qualified
+        nameforms = tuple(rng.choice([0, 1, 1, 1, 2, 2, 3, 4, 5, 6, 7, 8]) for _ in range(5))
+    return Case(q, path, dialect, style, nameforms)
 
 
 def corpus_cases():
@@ -1131,6 +1254,7 @@ def run(chk: Check) -> None:
     # ---- search
     budget = chk.pick(12, 120) * (3 if chk.broken else 1)
     deadline = time.time() + budget
+    min_budget, min_spent = 0.4 * budget, 0.0
     n = 0
     seen_keys = set()
     queue = list(hints) + [c for c in cases[:10]]
@@ -1164,7 +1288,12 @@ def run(chk: Check) -> None:
                 v[2].get("pres") == "cte" and "ref-collist" in case.feats) or "paren-root" in case.feats
             # a column-list alias under sources= / on a CTE reference fails for the known reason whatever else the
             # query contains: nothing to minimise
-            report(chk, case, v, 0 if certain else min(deadline + 5, time.time() + chk.pick(6, 20)))
+            # minimisation may use at most ~40% of the search budget, so that one large failing case does not
+            # starve the generator
+            left = min_budget - min_spent
+            t1 = time.time()
+            report(chk, case, v, 0 if (certain or left <= 0) else min(deadline + 5, t1 + min(chk.pick(4, 20), left)))
+            min_spent += time.time() - t1
     chk.search_info = {"queries": n, "budget_s": budget, "oracle": "real lineage leaves == recorded syntactic flow; "
                        "inline/CTE/sources= presentations, alias renaming and lineage(None) agree",
                        "dialects": [str(d) for d in DIALECTS]}
